@@ -25,6 +25,7 @@ import (
 	"github.com/scrapli/scrapligo/driver/network"
 	"github.com/scrapli/scrapligo/driver/opoptions"
 	"github.com/scrapli/scrapligo/driver/options"
+	"github.com/scrapli/scrapligo/response"
 	"github.com/scrapli/scrapligo/transport"
 	"github.com/scrapli/scrapligo/util"
 
@@ -47,7 +48,11 @@ const (
 var c06scenarios = []string{"g-send", "g-prompt", "g-inter", "g-open", "n-send", "n-open",
 	"nc10-open", "nc11-open", "nc10-rpc", "nc11-rpc", "nc11-rpc2",
 	// the per-operation options that select another read path
-	"g-send+x", "g-send+e", "g-send+i", "g-inter+x", "g-cb", "n-send+x"}
+	"g-send+x", "g-send+e", "g-send+i", "g-inter+x", "g-cb", "n-send+x",
+	// batches, privilege navigation into configuration mode, in-channel authentication during Open
+	"g-batch", "n-config", "g-tauth-open", "g-sauth-open",
+	// NETCONF: subscription establishment, a transport that echoes requests
+	"nc10-sub", "nc11-sub", "nc10-rpc-echo", "nc11-rpc-echo"}
 
 type c06scen struct {
 	Name  string
@@ -123,7 +128,8 @@ type c06res struct {
 	Ident     string `json:"i"` // nil|connection|simio|simwrite|timeout|privilege|other
 	Result    string `json:"r"`
 	ElapsedUs int64  `json:"e"`
-	SinceLoss int64  `json:"s"` // µs between the transport's first loss report and the return (-1: n/a)
+	SinceLoss int64  `json:"s"`  // µs between the transport's first loss report and the return (-1: n/a)
+	LossFirst bool   `json:"lf"` // the transport had reported the loss (≥ 500 µs) before the call started
 	Hang      bool   `json:"h"`
 }
 
@@ -146,6 +152,7 @@ type c06obs struct {
 	NB           []byte     `json:"nb"`    // NETCONF: what Driver.read is holding when the RPC starts
 	Stale        [][]byte   `json:"stale"` // idle scenarios: the unsolicited bytes, as the reads delivered them
 	Hist         []c06hist  `json:"hist"`  // what the caller tried on the same driver object after the loss
+	Subs         [][]byte   `json:"subs"`  // NETCONF: GetSubscriptionMessages(7) at the end of the case
 }
 
 // c06hist is one step of the history after the loss: openfail (Open while the device refuses the
@@ -165,6 +172,7 @@ type c06env struct {
 	close func() error
 	unsol func(class int) []byte            // idle scenarios: what the device says unasked (by content class)
 	hops  map[string]func() (string, error) // operations available to the history after the loss
+	subs  func() [][]byte                   // NETCONF: the messages stored for subscription 7
 }
 
 // The property quantifies over error VALUES ("persistent non-EOF error such as EIO / connection
@@ -207,7 +215,7 @@ var c06writeErrs = []c06errVal{
 func c06pick(s c06scen, kind string, k int) c06errVal {
 	i := int((s.VSeed + uint64(k)) % 1000003)
 	switch kind {
-	case "eof":
+	case "eof", "both", "tclose":
 		return c06eofErrs[i%len(c06eofErrs)]
 	case "werr":
 		return c06writeErrs[i%len(c06writeErrs)]
@@ -272,6 +280,32 @@ func (s c06scen) build() *c06env {
 	e := &c06env{}
 	base := []util.Option{options.WithAuthBypass(), options.WithTimeoutOps(c06Timeout), options.WithReadDelay(s.delay)}
 	switch {
+	case s.base() == "g-tauth-open" || s.base() == "g-sauth-open":
+		// loss while channel.Open is authenticating in-channel (telnet / ssh flavour)
+		dev := sim.NewC06Login(s.base() == "g-sauth-open", "admin", s.secret, s.host+"#")
+		dev.Out = s.out
+		s.setSeg(dev.Pipe)
+		dev.Start()
+		e.pipe = dev.Pipe
+		la := sim.NewLossyAuth(dev)
+		e.lossy = la.Lossy
+		d, err := generic.NewDriver("h", options.WithCustomTransport(la), options.WithAuthUsername("admin"),
+			options.WithAuthPassword(s.secret), options.WithTimeoutOps(c06Timeout), options.WithReadDelay(s.delay))
+		if err != nil {
+			panic(err)
+		}
+		e.open = d.Open
+		e.close = d.Close
+		send := func() (string, error) {
+			r, err := d.SendCommand(s.cmd)
+			if err != nil {
+				return "", err
+			}
+			return r.Result, nil
+		}
+		prm := func() (string, error) { return d.GetPrompt() }
+		e.later = []func() (string, error){prm, send}
+		e.hops = map[string]func() (string, error){"prompt": prm, "send": send}
 	case strings.HasPrefix(s.base(), "g-"):
 		dev := sim.NewCLI()
 		prompt := s.host + "#"
@@ -346,6 +380,15 @@ func (s c06scen) build() *c06env {
 				}
 				return r.Result, nil
 			}
+		case "g-batch":
+			// SendCommands: the loss strikes somewhere inside the batch
+			e.op = func() (string, error) {
+				m, err := d.SendCommands([]string{s.cmd, "show clock", s.cmd})
+				if err != nil {
+					return "", err
+				}
+				return m.JoinedResult(), nil
+			}
 		case "g-prompt", "g-idle-prompt":
 			e.op = prm
 		case "g-inter", "g-idle-inter":
@@ -408,8 +451,11 @@ func (s c06scen) build() *c06env {
 		dev := sim.NewCLI()
 		dev.Mode = "exec"
 		dev.Prompt = func(c *sim.CLI) string {
-			if c.Mode == "exec" {
+			switch c.Mode {
+			case "exec":
 				return s.host + ">"
+			case "configuration":
+				return s.host + "(config)#"
 			}
 			return s.host + "#"
 		}
@@ -424,7 +470,13 @@ func (s c06scen) build() *c06env {
 			case line == "enable" && c.Mode == "exec":
 				c.Hidden = true
 				return "Password:"
-			case line == "":
+			case line == "configure terminal" && c.Mode == "privilege-exec":
+				c.Mode = "configuration"
+				return ""
+			case line == "end" && c.Mode == "configuration":
+				c.Mode = "privilege-exec"
+				return ""
+			case line == "" || c.Mode == "configuration":
 				return ""
 			}
 			return s.out
@@ -460,6 +512,16 @@ func (s c06scen) build() *c06env {
 			}
 			return r.Result, nil
 		}
+		if s.base() == "n-config" {
+			// SendConfigs: navigate exec -> privilege-exec (password) -> configuration, then a batch
+			e.op = func() (string, error) {
+				m, err := d.SendConfigs([]string{"interface Gi0/1", "description uplink"})
+				if err != nil {
+					return "", err
+				}
+				return m.JoinedResult(), nil
+			}
+		}
 		e.later = []func() (string, error){func() (string, error) { return d.GetPrompt() }, send}
 		e.hops = map[string]func() (string, error){"prompt": func() (string, error) { return d.GetPrompt() }, "send": send}
 	default: // NETCONF
@@ -472,13 +534,23 @@ func (s c06scen) build() *c06env {
 		srv.Behave = func(i int, req sim.NCRequest) sim.NCReply {
 			p := fmt.Sprintf(`<rpc-reply xmlns="urn:ietf:params:xml:ns:netconf:base:1.0" message-id="%d"><data><cfg>%s</cfg></data></rpc-reply>`,
 				req.MessageID, strings.ReplaceAll(strings.ReplaceAll(s.out, "<", ""), ">", ""))
+			if bytes.Contains(req.Raw, []byte("establish-subscription")) {
+				p = fmt.Sprintf(`<rpc-reply xmlns="urn:ietf:params:xml:ns:netconf:base:1.0" message-id="%d"><subscription-result xmlns="urn:ietf:params:xml:ns:yang:ietf-event-notifications">notif-bis:ok</subscription-result><subscription-id xmlns="urn:ietf:params:xml:ns:yang:ietf-event-notifications">7</subscription-id></rpc-reply>`, req.MessageID)
+			}
 			return sim.NCReply{Payload: []byte(p), Chunks: []int{10 + s.segK, 3}}
+		}
+		if strings.HasSuffix(s.base(), "-echo") {
+			srv.Echo = true // a transport that echoes the request back (Driver.read's "</rpc>" branch)
 		}
 		s.setSeg(srv.Pipe)
 		srv.Start()
 		e.pipe = srv.Pipe
 		e.lossy = sim.NewLossy(srv, srv.Pipe)
-		d, err := netconf.NewDriver("h", append(base, options.WithCustomTransport(e.lossy))...)
+		ncopts := append(base, options.WithCustomTransport(e.lossy))
+		if s.VSeed%3 == 0 {
+			ncopts = append(ncopts, options.WithNetconfForceSelfClosingTags())
+		}
+		d, err := netconf.NewDriver("h", ncopts...)
 		if err != nil {
 			panic(err)
 		}
@@ -492,10 +564,46 @@ func (s c06scen) build() *c06env {
 			return r.Result, nil
 		}
 		e.op = rpc
+		if strings.HasSuffix(s.base(), "-rpc") || strings.HasSuffix(s.base(), "-rpc-echo") {
+			// the operation under test is one of the RPC kinds, drawn from the case's variant seed
+			kinds := []func() (*response.NetconfResponse, error){
+				func() (*response.NetconfResponse, error) { return d.GetConfig("running") },
+				func() (*response.NetconfResponse, error) { return d.Get("<interfaces/>") },
+				func() (*response.NetconfResponse, error) {
+					return d.EditConfig("candidate", "<config><x>1</x></config>")
+				},
+				func() (*response.NetconfResponse, error) { return d.CopyConfig("running", "startup") },
+				func() (*response.NetconfResponse, error) { return d.DeleteConfig("startup") },
+				func() (*response.NetconfResponse, error) { return d.Commit() },
+				func() (*response.NetconfResponse, error) { return d.Discard() },
+				func() (*response.NetconfResponse, error) { return d.Lock("candidate") },
+				func() (*response.NetconfResponse, error) { return d.Unlock("candidate") },
+				func() (*response.NetconfResponse, error) { return d.Validate("candidate") },
+				func() (*response.NetconfResponse, error) { return d.RPC(opoptions.WithFilter("<get-schema/>")) },
+			}
+			kf := kinds[int(s.VSeed%uint64(len(kinds)))]
+			e.op = func() (string, error) {
+				r, err := kf()
+				if err != nil {
+					return "", err
+				}
+				return r.Result, nil
+			}
+		}
+		if strings.HasSuffix(s.base(), "-sub") {
+			e.op = func() (string, error) {
+				r, err := d.EstablishPeriodicSubscription("/interfaces", 1000)
+				if err != nil {
+					return "", err
+				}
+				return r.Result, nil
+			}
+		}
+		e.subs = func() [][]byte { return d.GetSubscriptionMessages(7) }
 		e.later = []func() (string, error){rpc, rpc}
 		e.hops = map[string]func() (string, error){"rpc": rpc}
 		e.unsol = func(class int) []byte {
-			note := srv.Frame(sim.NCReply{Payload: []byte(`<notification xmlns="urn:ietf:params:xml:ns:netconf:notification:1.0"><eventTime>2026-01-01T00:00:00Z</eventTime><link-down><if>Gi0/1</if></link-down></notification>`)})
+			note := srv.Frame(sim.NCReply{Payload: []byte(`<notification xmlns="urn:ietf:params:xml:ns:netconf:notification:1.0"><eventTime>2026-01-01T00:00:00Z</eventTime><push-update xmlns="urn:ietf:params:xml:ns:yang:ietf-yang-push"><subscription-id>7</subscription-id><link-down><if>Gi0/1</if></link-down></push-update></notification>`)})
 			switch class {
 			case 1:
 				return note[:len(note)/2]
@@ -536,6 +644,7 @@ func c06call(l *sim.Lossy, f func() (string, error)) c06res {
 	case r := <-ch:
 		res := c06res{Class: errClass(r.err), Ident: c06ident(r.err), Result: r.s, ElapsedUs: r.at.Sub(t0).Microseconds(), SinceLoss: -1}
 		if at, _ := l.Loss(); !at.IsZero() {
+			res.LossFirst = at.Add(500 * time.Microsecond).Before(t0)
 			if at.Before(t0) {
 				at = t0
 			}
@@ -558,7 +667,7 @@ func c06exec(s c06scen, kind string, k int) (o c06obs) {
 	if kind != "" {
 		v := c06pick(s, kind, k)
 		switch kind {
-		case "eof":
+		case "eof", "both", "tclose":
 			e.lossy.EOFErr = v.err
 		case "werr":
 			e.lossy.WriteErr = v.err
@@ -575,8 +684,22 @@ func c06exec(s c06scen, kind string, k int) (o c06obs) {
 				p.ErrAt = p.Delivered + k
 			case "werr":
 				p.WriteErrAfter = p.Written + k
+			case "both": // reads end and writes fail, both after k bytes
+				p.EOFAt = p.Delivered + k
+				p.WriteErrAfter = p.Written + k
 			}
 		})
+		if kind == "tclose" { // a third party closes the transport after k more bytes
+			if k == 0 {
+				e.lossy.ThirdPartyClose()
+			} else {
+				// reads are cut at byte k (StallAt), and the read that delivers byte k triggers the close
+				e.pipe.SetFaults(func(p *sim.Pipe) {
+					p.StallAt = p.Delivered + k
+					e.lossy.CloseAt = p.Delivered + k
+				})
+			}
+		}
 	}
 	var baseD, baseW, baseReads, baseWrites int
 	mark := func() {
@@ -608,7 +731,7 @@ func c06exec(s c06scen, kind string, k int) (o c06obs) {
 		}
 		// quiesce: everything the device has emitted so far is delivered before the loss point is
 		// armed, so that byte k means the same in the reference run and in every case
-		for t0 := time.Now(); time.Since(t0) < 100*time.Millisecond; {
+		for t0 := time.Now(); time.Since(t0) < 2*time.Second; {
 			quiet := false
 			e.pipe.Snapshot(func() { quiet = e.pipe.Delivered == e.pipe.Emitted })
 			if quiet {
@@ -691,6 +814,9 @@ func c06exec(s c06scen, kind string, k int) (o c06obs) {
 			o.Hist = c06history(s, e, kind, k)
 		}
 	}
+	if e.subs != nil && kind != "" {
+		o.Subs = e.subs()
+	}
 	at, _ := e.lossy.Loss()
 	o.LossReported = !at.IsZero()
 	e.pipe.Snapshot(func() {
@@ -744,7 +870,7 @@ func c06history(s c06scen, e *c06env, kind string, k int) []c06hist {
 	closedOnce := kind == "eof"
 	var ops []string
 	for name := range e.hops {
-		if kind == "werr" && name == "readall" {
+		if (kind == "werr" || kind == "both") && name == "readall" {
 			continue // a write-only failure is invisible to (and irrelevant for) a pure reader
 		}
 		ops = append(ops, name)
@@ -784,6 +910,27 @@ func c06history(s c06scen, e *c06env, kind string, k int) []c06hist {
 		}
 	}
 	return out
+}
+
+// c06judgeSubs: what GetSubscriptionMessages hands out after a loss is complete messages only (the
+// truncated-success clause for the subscription store): never a message the loss cut short.
+func c06judgeSubs(c *ctx, caseLine string, kind string, subs [][]byte) bool {
+	for _, m := range subs {
+		c.res.Count("subscription message retrieved after the loss")
+		// (a read that carried a complete message and the beginning of the next one is stored as one
+		// blob: message framing is C08's subject; here: no blob that holds no complete message)
+		complete := false
+		for _, end := range []string{"</notification>]]>]]>", "</notification>\n##", "</rpc-reply>]]>]]>", "</rpc-reply>\n##"} {
+			if bytes.Contains(m, []byte(end)) {
+				complete = true
+			}
+		}
+		if !complete {
+			c.res.Fail("oracle", caseLine, fmt.Sprintf("after the loss (%s) GetSubscriptionMessages returned a message the loss cut short: %q", kind, m), "truncated-subscription-message")
+			return true
+		}
+	}
+	return false
 }
 
 // c06judgeHist: once the connection is lost every later operation on that driver object returns an
@@ -886,6 +1033,25 @@ func (s c06scen) program() []c06phase {
 			c06W(s.secret), c06W("\n"), c06P("C06.exec+C06.privexec+C06.privexec"),
 			c06W("\n"), c06P(c06joined)} // GetPrompt
 		return append(p, sendG(cmd, c06joined)...)
+	case "g-batch":
+		p := sendG(s.cmd, "Channel.promptPattern")
+		p = append(p, sendG("show clock", "Channel.promptPattern")...)
+		return append(p, sendG(s.cmd, "Channel.promptPattern")...)
+	case "n-config":
+		p := []c06phase{c06W("\n"), c06P(c06joined),
+			c06W("enable"), c06E("enable"), c06W("\n"), c06P("C06.exec+C06.privexec+C06.password"),
+			c06W(s.secret), c06W("\n"), c06P("C06.exec+C06.privexec+C06.privexec"),
+			c06W("\n"), c06P(c06joined)}
+		p = append(p, sendG("configure terminal", c06joined)...)
+		p = append(p, c06W("\n"), c06P(c06joined))
+		p = append(p, sendG("interface Gi0/1", c06joined)...)
+		return append(p, sendG("description uplink", c06joined)...)
+	case "g-tauth-open":
+		const any3 = "Channel.promptPattern+Channel.username+Channel.password"
+		return []c06phase{c06P(any3), c06W("admin"), c06W("\n"), c06P(any3), c06W(s.secret), c06W("\n"), c06P(any3)}
+	case "g-sauth-open":
+		const any3 = "Channel.promptPattern+Channel.password+Channel.passphrase"
+		return []c06phase{c06P(any3), c06W(s.secret), c06W("\n"), c06P(any3)}
 	case "nc10-open", "nc11-open":
 		return []c06phase{c06P("Netconf.v1Dot0Delim"), {write: []byte{}, pred: "hello"}, c06W("\n")}
 	}
@@ -911,6 +1077,9 @@ func c06chunks(stream []byte, cuts []int, from, to int) [][]byte {
 // c06request renders the model request for a sweep; "" if the reference run does not have the
 // shape the program says (reported as machinery by the caller).
 func c06request(s c06scen, ref c06obs, kind string, ks []int) (string, string) {
+	if kind == "tclose" {
+		kind = "eof" // the model's read side; that writes fail too is allowed for in the comparison
+	}
 	kl := make([]string, len(ks))
 	for i, k := range ks {
 		kl[i] = strconv.Itoa(k)
@@ -1252,6 +1421,7 @@ func runC06(c *ctx) {
 		return
 	}
 	var sweeps []*c06sweep
+	telnetJudge := func() {}
 	addScen := func(s c06scen, kinds []string, only int) {
 		ref := c06exec(s, "", 0)
 		sw0 := &c06sweep{job: c06job{scen: s}, ref: ref}
@@ -1266,6 +1436,13 @@ func runC06(c *ctx) {
 			}
 		}
 		sw0.L, sw0.W = s.extent(ref)
+		if os.Getenv("C06_DEBUG") != "" {
+			fmt.Fprintf(os.Stderr, "REF %s: stream=%d pre=%d L=%d W=%d writes=", s.id(), len(ref.Stream), len(ref.Pre), sw0.L, sw0.W)
+			for _, w := range ref.Writes {
+				fmt.Fprintf(os.Stderr, "(%d@%d)", len(w.Data), w.Emitted)
+			}
+			fmt.Fprintln(os.Stderr)
+		}
 		for _, kind := range kinds {
 			sw := *sw0
 			n := sw.L
@@ -1305,14 +1482,30 @@ func runC06(c *ctx) {
 			addScen(s, []string{f[5]}, k)
 		}
 	} else {
+		// the library's own telnet transport over loopback TCP (FIN / RST after k bytes), in the
+		// background; judged at the end
+		telnetJudge = c06telnetStart(c, 0, "", 0)
 		rxDiff(c, []string{"Netconf.v1Dot", "Channel.promptPattern"}, c.n(150, 1500))
 		c06rx(c)
 		variants := c.n(1, 3)
-		for _, name := range c06scenarios {
+		for ni, name := range c06scenarios {
 			for v := 0; v < variants; v++ {
 				for seg := 0; seg < 3; seg++ {
+					// quick tier: the eleven base scenarios run under all three segmentation classes, the
+					// option / batch / auth / subscription / echo variants under one class each, rotating
+					if !c.thorough() && ni >= 11 && seg != (ni+int(c.seed))%3 {
+						continue
+					}
 					s := c06mk(name, c.rng.U64()%1000000, seg, 0)
-					addScen(s, []string{"eof", "err", "werr"}, -1)
+					kinds := []string{"eof", "err", "werr"}
+					switch name {
+					case "g-send", "n-send", "nc11-rpc", "g-tauth-open", "g-batch":
+						// both directions at once; the transport closed by a third party
+						if c.thorough() || seg == (ni+int(c.seed))%3 {
+							kinds = append(kinds, "both", "tclose")
+						}
+					}
+					addScen(s, kinds, -1)
 				}
 			}
 		}
@@ -1377,6 +1570,9 @@ func runC06(c *ctx) {
 			reqs = append(reqs, strings.Join(f, " "))
 		}
 	}
+	if f := os.Getenv("C06_DUMPREQ"); f != "" {
+		_ = os.WriteFile(f, []byte(strings.Join(reqs, "\n")+"\n"), 0o644)
+	}
 	ans := c.ask(reqs)
 	for i, sw := range sweeps {
 		if sw.idle {
@@ -1385,6 +1581,7 @@ func runC06(c *ctx) {
 			c06judge(c, sw, outs[i], ans[at[i]])
 		}
 	}
+	telnetJudge()
 	res.TracesVsImpl += len(sweeps)
 }
 
@@ -1567,6 +1764,10 @@ func c06judge(c *ctx, sw *c06sweep, out map[int]c06out, answer string) {
 				case l.Hang:
 					res.Fail("oracle", caseLine, fmt.Sprintf("later operation %d hung after %s at byte %d", li, kind, k), "hang:later-operation")
 					bad = true
+				case l.Ident == "nil" && !l.LossFirst && op.Ident == "nil":
+					// the exchange completed and the transport had not yet reported the loss when this
+					// operation ran (it found what it needed already queued): not a violation
+					res.Count("later operation succeeded before the transport reported the loss")
 				case l.Ident == "nil":
 					res.Fail("oracle", caseLine, fmt.Sprintf("later operation %d succeeded (%q) although the connection was lost (%s at byte %d, first operation: %s)", li, l.Result, kind, k, op.Ident), "later-success:"+kind)
 					bad = true
@@ -1588,7 +1789,7 @@ func c06judge(c *ctx, sw *c06sweep, out map[int]c06out, answer string) {
 			continue
 		}
 		// ---- history after the loss: re-Open / Close / more operations on the same driver object
-		if c06judgeHist(c, caseLine, s, kind, o.obs.Hist) {
+		if c06judgeHist(c, caseLine, s, kind, o.obs.Hist) || c06judgeSubs(c, caseLine, kind, o.obs.Subs) {
 			continue
 		}
 		// ---- correspondence: the implementation's outcome is one the model allows
@@ -1596,6 +1797,10 @@ func c06judge(c *ctx, sw *c06sweep, out map[int]c06out, answer string) {
 		for _, x := range modelSet {
 			cl := c06classOf(x)
 			if cl == op.Ident || (strings.HasPrefix(s.base(), "n-") && cl != "nil" && op.Ident == "privilege") {
+				okc = true
+			}
+			// reads and writes both dead: which of the two the operation trips over first is timing
+			if (kind == "both" || kind == "tclose") && cl != "nil" && (op.Ident == "connection" || op.Ident == "simwrite" || op.Ident == "simio") {
 				okc = true
 			}
 		}
@@ -1739,7 +1944,7 @@ func c06judgeIdle(c *ctx, sw *c06sweep, out map[int]c06out, ans []string) {
 				break
 			}
 		}
-		if !failed && c06judgeHist(c, caseLine, s, kind, o.obs.Hist) {
+		if !failed && (c06judgeHist(c, caseLine, s, kind, o.obs.Hist) || c06judgeSubs(c, caseLine, kind, o.obs.Subs)) {
 			failed = true
 		}
 		if failed || len(modelSet) == 0 {
@@ -1817,6 +2022,20 @@ func c06witness(c *ctx, only int) {
 
 func init() {
 	props["C06"] = func(c *ctx) {
+		if strings.HasPrefix(c.replay, "c06tchild ") {
+			c06telnetChild(strings.Fields(c.replay))
+			c.out = ""
+			return
+		}
+		if strings.HasPrefix(c.replay, "c06telnet ") {
+			f := strings.Fields(c.replay)
+			if len(f) >= 4 {
+				seed, _ := strconv.ParseUint(f[1], 10, 64)
+				k, _ := strconv.Atoi(f[3])
+				c06telnet(c, seed, f[2], k)
+			}
+			return
+		}
 		if strings.HasPrefix(c.replay, "c06wchild ") {
 			k, _ := strconv.Atoi(strings.Fields(c.replay)[1])
 			c06witnessChild(k)
